@@ -90,7 +90,7 @@ theorem affineIdentical_iff (g h : Geom) : affineIdentical g h = true ↔ Affine
 theorem geometryEqual_true_iff (g h : Geom) (tol : Option Rat) :
     geometryEqual g h tol = .ok true ↔
       ((∀ a, g.shape a = h.shape a) ∧ g.cs = h.cs ∧ NoForConflict g h ∧ AffineWithin g h tol) := by
-  unfold geometryEqual geomEqualDecision NoForConflict
+  unfold geometryEqual geometryEqualC geomEqualDecision NoForConflict
   rw [forall_ax]
   rcases hg : g.frameOfRef with _ | u <;> rcases hh : h.frameOfRef with _ | v <;> rcases tol with _ | t <;>
     simp only [← affineClose_iff, ← affineIdentical_iff] <;>
@@ -99,7 +99,7 @@ theorem geometryEqual_true_iff (g h : Geom) (tol : Option Rat) :
     simp [h0, h1, h2, hc] <;> (try split_ifs) <;> simp_all
 
 theorem geometryEqual_total (g h : Geom) (tol : Option Rat) : ∃ b, geometryEqual g h tol = .ok b := by
-  unfold geometryEqual geomEqualDecision
+  unfold geometryEqual geometryEqualC geomEqualDecision
   rcases g.frameOfRef with _ | u <;> rcases h.frameOfRef with _ | v <;> rcases tol with _ | t <;>
     simp only [] <;> split <;> (try split) <;> (try split) <;> (try split) <;> simp_all
 
@@ -354,11 +354,12 @@ theorem inShape_iff (shape k : Ax → Int) : inShape shape k = true ↔ InShape 
 theorem inShape_false_iff (shape k : Ax → Int) : inShape shape k = false ↔ ¬ InShape shape k := by
   rw [← inShape_iff]; simp
 
-/-- `w` is `v` seen through the index map `m`, with padding value `c` where `m` leaves `v` -/
-structure Prov {α : Type} (v w : Vol α) (c : α) (m : (Ax → Int) → (Ax → Int)) : Prop where
+/-- `w` is `v` seen through the index map `m`; where `m` leaves `v` the voxel is the padding value
+`fill (m k)` (a function of the out-of-range index in the coordinates of `v`) -/
+structure Prov {α : Type} (v w : Vol α) (fill : (Ax → Int) → α) (m : (Ax → Int) → (Ax → Int)) : Prop where
   ref : ∀ k, w.geom.toRef (toRat k) = v.geom.toRef (toRat (m k))
   val : ∀ k, InShape w.geom.shape k →
-    (InShape v.geom.shape (m k) → w.vox k = v.vox (m k)) ∧ (¬ InShape v.geom.shape (m k) → w.vox k = c)
+    (InShape v.geom.shape (m k) → w.vox k = v.vox (m k)) ∧ (¬ InShape v.geom.shape (m k) → w.vox k = fill (m k))
 
 /-- a re-indexing that maps the index set of `w` onto that of `v` (permutation of axes, identity) -/
 structure Iso {α : Type} (v w : Vol α) (m : (Ax → Int) → (Ax → Int)) : Prop where
@@ -374,11 +375,11 @@ structure Sub {α : Type} (v w : Vol α) (m : (Ax → Int) → (Ax → Int)) : P
 
 theorem Iso.refl {α : Type} (v : Vol α) : Iso v v id := ⟨fun _ => rfl, fun _ => Iff.rfl, fun _ => rfl⟩
 theorem Sub.refl {α : Type} (v : Vol α) : Sub v v id := ⟨fun _ => rfl, fun _ h => h, fun _ => rfl⟩
-theorem Prov.refl {α : Type} (v : Vol α) (c : α) : Prov v v c id :=
+theorem Prov.refl {α : Type} (v : Vol α) (fill : (Ax → Int) → α) : Prov v v fill id :=
   ⟨fun _ => rfl, fun _ h => ⟨fun _ => rfl, fun hn => absurd h hn⟩⟩
 
-theorem Iso.prov {α : Type} {v w w' : Vol α} {c : α} {m1 m2} (h1 : Iso v w m1) (h2 : Prov w w' c m2) :
-    Prov v w' c (m1 ∘ m2) := by
+theorem Iso.prov {α : Type} {v w w' : Vol α} {f1 f2 : (Ax → Int) → α} {m1 m2} (h1 : Iso v w m1) (h2 : Prov w w' f2 m2)
+    (hf : ∀ j, f2 j = f1 (m1 j)) : Prov v w' f1 (m1 ∘ m2) := by
   refine ⟨fun k => by rw [h2.ref, h1.ref]; rfl, fun k hk => ?_⟩
   obtain ⟨hin, hout⟩ := h2.val k hk
   constructor
@@ -387,16 +388,16 @@ theorem Iso.prov {α : Type} {v w w' : Vol α} {c : α} {m1 m2} (h1 : Iso v w m1
     rw [hin hw, h1.val]; rfl
   · intro hv
     have hw : ¬ InShape w.geom.shape (m2 k) := fun hw => hv ((h1.dom _).mp hw)
-    exact hout hw
+    rw [hout hw, hf]; rfl
 
-theorem Prov.sub {α : Type} {v w u : Vol α} {c : α} {m1 m2} (h1 : Prov v w c m1) (h2 : Sub w u m2) :
+theorem Prov.sub {α : Type} {v w u : Vol α} {c : (Ax → Int) → α} {m1 m2} (h1 : Prov v w c m1) (h2 : Sub w u m2) :
     Prov v u c (m1 ∘ m2) := by
   refine ⟨fun k => by rw [h2.ref, h1.ref]; rfl, fun k hk => ?_⟩
   have hw := h2.dom k hk
   obtain ⟨hin, hout⟩ := h1.val (m2 k) hw
   constructor
   · intro hv; rw [h2.val, hin hv]; rfl
-  · intro hv; rw [h2.val, hout hv]
+  · intro hv; rw [h2.val, hout hv]; rfl
 
 /-! ### permutation -/
 
@@ -430,8 +431,8 @@ theorem permute_iso {α : Type} (v w : Vol α) (p : Ax → Ax) (h : permute v p 
 
 /-! ### padding -/
 
-theorem pad_prov {α : Type} (v w : Vol α) (b a : Ax → Int) (c : α) (h : pad v b a c = .ok w) :
-    Prov v w c (fun k ax => k ax - b ax) ∧ padGeom v.geom b a = .ok w.geom := by
+theorem pad_prov {α : Type} (v w : Vol α) (b a : Ax → Int) (mode : PadMode α) (h : pad v b a mode = .ok w) :
+    Prov v w (mode.fill v) (fun k ax => k ax - b ax) ∧ padGeom v.geom b a = .ok w.geom := by
   unfold pad at h
   cases hg : padGeom v.geom b a with
   | error e => simp [hg] at h
